@@ -123,6 +123,31 @@ impl T2 for Imp {
     fn two_a(&mut self, a: u64) -> u64 { self.step(31, 39, a) }
 }
 
+/// forwarded trait (usable through `Fwd<&mut T>` / `Fwd<&T>`), with a supertrait bound, a default
+/// method body the implementor does not override, and a `mut` argument pattern
+#[cglue_trait]
+#[cglue_forward]
+pub trait TW: Send {
+    fn w_set(&mut self, a: u64, b: u64) -> u64;
+    fn w_get(&self, a: u64) -> u64;
+    fn w_default(&mut self, a: u64) -> u64 { let a = a.rotate_left(3); let r = self.w_get(a); self.w_set(r, a) }
+    fn w_alt(&self, a: u64) -> u64;
+}
+impl TW for Imp {
+    fn w_set(&mut self, mut a: u64, b: u64) -> u64 { a ^= b.rotate_left(9); self.id = self.id.wrapping_add(a); self.step(50, 41, a) }
+    fn w_get(&self, a: u64) -> u64 { self.step(51, 43, a) }
+    fn w_alt(&self, a: u64) -> u64 { self.step(52, 45, a ^ 7) }
+}
+/// `mut` argument pattern with a default body the implementor does not override
+#[cglue_trait]
+pub trait TM {
+    fn m_base(&mut self, a: u64) -> u64;
+    fn m_mutarg(&mut self, mut a: u64, mut b: u32) -> u64 { a = a.rotate_left(b % 64); b = b.wrapping_add(1); self.m_base(a ^ b as u64) }
+}
+impl TM for Imp { fn m_base(&mut self, a: u64) -> u64 { self.step(55, 49, a) } }
+/// builtin external trait
+impl AsRef<u64> for Imp { fn as_ref(&self) -> &u64 { let _ = self.step(60, 47, 0); &self.id } }
+
 cglue_trait_group!(G1, T1, { T2, TG<u32> = TGu32 });
 cglue_impl_group!(Imp, G1, { T2, TG<u32> = TGu32 });
 
